@@ -132,13 +132,13 @@ Theorem records_roundtrip : forall f, struct_dom f = true -> numeric_mix f = fal
   M_from_records (tf_index f) (tf_columns f) (M_rows f) = f.
 Proof. exact records_section. Qed.
 
-(* pickle: content and names come back; blocks and label arrays are read-only again *)
+(* pickle: content and names come back; blocks, label arrays and positions arrays are read-only again *)
 Theorem pickle_roundtrip : forall f,
-  pframe_content (M_unpickle f) = pframe_content f /\ data_readonly (M_unpickle f) = true.
+  pframe_content (M_unpickle f) = pframe_content f /\ all_readonly (M_unpickle f) = true.
 Proof.
   intro f. split.
   - unfold pframe_content, M_unpickle. cbn. rewrite map_map. cbn. reflexivity.
-  - unfold data_readonly, M_unpickle. cbn. rewrite forallb_map. cbn.
+  - unfold all_readonly, data_readonly, M_unpickle. cbn. rewrite forallb_map. cbn.
     assert (E : forallb (fun _ : parray => true) (pf_blocks f) = true) by (induction (pf_blocks f); cbn; auto).
     rewrite E. reflexivity.
 Qed.
